@@ -819,11 +819,13 @@ def loop_order_records(repo):
         n = 0
         saved = m.it.MAX_STEPS, m.it.memoise_cached
         m.it.MAX_STEPS = 3000000
+        m.it.MAX_CALL_DEPTH = 150          # the lookups recurse through every region of the loop; helpers add frames
         m.it.memoise_cached = True        # the subject: what supp's own memo attributes keep between two lookups
         try:
             return explore_loops(m)
         finally:
             m.it.MAX_STEPS, m.it.memoise_cached = saved
+            m.it.MAX_CALL_DEPTH = 40
 
     def explore_loops(m):
         out = []
